@@ -7,7 +7,7 @@ PROP = {
     "allowed_axioms": [],
     "harness": "c36",
     "modelrun": {"name": "c36", "extracted": ["c36_model"], "driver": "ocaml/c36/c36_run.ml"},
-    "tiers": {"quick": {"cases": 1500}, "thorough": {"cases": 40000}},
+    "tiers": {"quick": {"cases": 1000}, "thorough": {"cases": 40000}},
     "search_cases": 4000,
     "rule": "daemon lives of 2-3 configuration files (YAML rendered from a bounded grammar: 0-3 groups x 0-3 "
             "neighbors out of 5 addresses, group/neighbor settings incl. address families, add-path, TTL, "
